@@ -160,6 +160,8 @@ func TestMain(m *testing.M) {
 // Forgery is one adversarial strategy applied to the hints of circuit B.
 type Forgery struct {
 	// out-one | out-wire | out-all : outputs returned by the solve hint altered (prover works on honest data)
+	// out-adaptive                : 2 instances: outputs altered along the kernel of the evaluation at the first
+	//                               challenge learnt from an honest proof (works iff Fiat-Shamir ignores the statement)
 	// in-one | in-wire            : solve hint fed altered inputs x' (outputs + proof coherent for x', circuit holds x)
 	// in-keepout                  : as in-one, but the honest outputs for x are returned (honest outputs, proof of another statement)
 	// proof-one | proof-set       : one serialized proof element altered (added delta / overwritten by 0 or 1)
@@ -511,6 +513,41 @@ func run(c Case) (out ev.Outcome, harness string) {
 					label += ":outputs-differ"
 				}
 			}
+		case "out-adaptive":
+			// Adaptive forgery for 2 instances: the first sum-check message of the last (output) wire is
+			// g(1) = rho * z[1], so an honest proof reveals the first challenge rho. Outputs z+d with
+			// d0(1-rho) + d1 rho = 0 have the same multilinear evaluation at rho: the honest proof would
+			// verify for them if rho did not depend on the statement. With Fiat-Shamir bound to the
+			// initial challenge (which here depends on the forged outputs), rho changes and this is rejected.
+			last := t.Wires[len(t.Wires)-1]
+			uniq := map[int]bool{}
+			for _, in := range last.In {
+				uniq[in] = true
+			}
+			blk := gateTable()[last.Gate].degree + 1 + len(uniq)
+			zs := recH.solveOuts[(len(outs)-1)*n:]
+			if n != 2 || len(recH.proof) < blk || zs[1].Sign() == 0 {
+				classes = append(classes, "forgery:out-adaptive:not-applicable")
+				continue
+			}
+			g1 := recH.proof[len(recH.proof)-blk]
+			rho := new(big.Int).ModInverse(zs[1], p)
+			rho.Mul(rho, g1).Mod(rho, p)
+			if rho.Sign() == 0 {
+				classes = append(classes, "forgery:out-adaptive:not-applicable")
+				continue
+			}
+			d1 := new(big.Int).Sub(big.NewInt(1), rho)
+			d1.Mul(d1, delta).Neg(d1).Mul(d1, new(big.Int).ModInverse(rho, p)).Mod(d1, p)
+			ds := []*big.Int{delta, d1}
+			k0 := (len(outs) - 1) * n
+			for sIdx := 0; sIdx < 2; sIdx++ {
+				addDelta(claimed[len(outs)-1][order[sIdx]], ds[sIdx], p)
+			}
+			adv.tamperOuts = func(o []*big.Int) {
+				o[k0].Add(o[k0], ds[0])
+				o[k0+1].Add(o[k0+1], ds[1])
+			}
 		case "proof-one":
 			adv.tamperProof = func(pr []*big.Int) bool {
 				if len(pr) == 0 {
@@ -744,7 +781,11 @@ func genCase(curves []string, maxLogN int) *rapid.Generator[Case] {
 		pick("out-one", "out-one", "out-wire", "out-all")
 		pick("in-one", "in-one", "in-wire", "in-keepout")
 		pick("proof-one", "proof-one", "proof-set")
-		pick("out-one", "in-one", "in-keepout", "proof-one", "chal", "chal")
+		if c.Topo.LogN == 1 {
+			pick("out-adaptive", "out-adaptive", "chal", "in-keepout")
+		} else {
+			pick("out-one", "in-one", "in-keepout", "proof-one", "chal", "chal")
+		}
 		return c
 	})
 }
